@@ -43,4 +43,9 @@ TEXTS = {
         "level_text": "Exploration: 24k (quick) / 480k (thorough) generated views (28 organisations, padded / negative-step / transposed / sub-sampled / bit-aligned with odd bit strides / channel and colour-converted adaptors); for each, every (start index, d) pair of the 1-D iterator (w*h <= 40), every offset pair of every row and column iterator, all nine access paths of every pixel, the 1-D traversability predicate, and a generated walk of iterator and locator moves with cached locations and axis iterators.",
         "level_note": "Identity of pixels is address / bit-range identity wherever the reference type allows it, so a path that reaches an equal-valued but different pixel is still caught.",
     },
+    "C04": {
+        "technique": "rapidcheck-generated source/destination view pairs; differential against the per-pixel (x,y) loop on an identically laid out model buffer with whole-buffer byte comparison; metamorphic single-channel flips for equal_pixels",
+        "level_text": "Exploration: 96k (quick) / 1.6M (thorough) generated cases over 39 compatible and 18 converting (source, destination) organisation pairs (interleaved, planar, packed, bit-aligned x 1-D traversable or not, sub-views, sub-sampled, flipped, transposed, padded rows) and 12 algorithms. After each library call the destination's entire guard-page buffer must be byte-identical to the buffer produced by the obvious loop, which decides both 'same result' and 'nothing else modified' (padding, neighbours, shared bits).",
+        "level_note": "Trusted base: view(x,y) and single-pixel assignment (decided by C02, C03, C05, C08). Overlapping source/destination are not generated.",
+    },
 }
